@@ -10,9 +10,15 @@ QUICK = [
     ("plain-answer-conflict", ["answer=1", "ans=aa:36:b509:-:00", "submit=0", "nn=0", "snn=0", "qq=03,31", "zz=fe,36,31,15"]),
 ]
 THOROUGH = QUICK + [
-    ("plain-nn2", ["submit=0", "nn=2", "snn=2", "qq=03,15", "zz=fe,03,15,36"]),
+    ("plain-nn2", ["submit=0", "nn=2", "snn=2", "qq=03,15", "zz=fe,03,15,36", "maxnodes=1500000"]),
+    ("enh-long-nn1", ["enhanced=1", "enhlong=1", "submit=0", "nn=1", "snn=1", "qq=03,71,15", "zz=fe,03,15,36"]),
+    ("plain-readonly", ["readonly=1", "submit=0", "nn=1", "snn=1", "qq=03", "zz=fe,15,03"]),
+    ("plain-gensyn", ["gensyn=1", "submit=0", "nn=1", "snn=0", "qq=03", "zz=fe,15"]),
+    ("plain-lock0-keyseen", ["submit=0", "lock=0", "keyseen=1", "nn=0", "snn=0", "qq=03,71", "zz=fe,03"]),
 ]
 
 
 def run(ctx):
-    pc.run_configs(ctx, "C01", "r", THOROUGH if ctx.thorough else QUICK)
+    n = 400000 if ctx.thorough else 40000
+    rnd = [("rnd-plain", n, ["req=0:3115b50900", "buslost=1"]), ("rnd-enh", n, ["enhanced=1", "req=0:3115b50900", "buslost=1"])]
+    pc.run_configs(ctx, "C01", "r", THOROUGH if ctx.thorough else QUICK, random_runs=rnd)
